@@ -125,7 +125,7 @@ func init() {
 	})
 	register(&Property{
 		ID: "C44",
-		Explanation: "Decides: (header-capacity) every site that adds entries to a pack.Packer is bounded by a header-capacity test: packerManager.SaveBlob keeps a packer open for further blobs only if HeaderFull() is false (else it is forgotten and queued), and every caller of Packer.Merge establishes merged-entry-count <= pack.MaxHeaderEntries before merging (this rule reported the genuine defect in mergePackers, now fixed); (type-separation) saveAndEncrypt, evaluated for t=TreeBlob / DataBlob / other, hands the blob to r.treePM / r.dataPM / panics, and the managers are created for the matching type; (forget-before-queue) a packer is removed from the selectable list before it is queued, is kept open only below the target pack size, mergePackers clears list entries before merging, all under the manager mutex; (pack-before-index, flush-order) every queued pack is uploaded and then indexed before the session ends. Not decided: exactly-once containment of each blob under every schedule.",
+		Explanation: "Decides: (header-capacity) every site that adds entries to a pack.Packer is bounded by a header-capacity test: packerManager.SaveBlob keeps a packer open for further blobs only if HeaderFull() is false (else it is forgotten and queued), and every caller of Packer.Merge establishes merged-entry-count <= pack.MaxHeaderEntries before merging (this rule reported the genuine defect in mergePackers, now fixed); (type-separation) saveAndEncrypt, evaluated for t=TreeBlob / DataBlob / other, hands the blob to r.treePM / r.dataPM / panics, and the managers are created for the matching type; (forget-before-queue) a packer is removed from the selectable list before it is queued, is kept open only below the target pack size, mergePackers clears list entries before merging, all under the manager mutex; (pack-before-index, flush-order) every queued pack is uploaded and then indexed before the session ends; (no-orphan-packer) pickPacker returns a packer that is not registered in the manager's list only behind ciphertextLen >= packSize, SaveBlob leaves a packer unqueued only behind packer.Size() < packSize of the packer it picked, and the length handed to pickPacker is len() of exactly the bytes packer.Add stores, so the private packer of an oversized blob is always queued — added after a seeded change that measured the plaintext instead. Not decided: exactly-once containment of each blob under every schedule.",
 		Assumptions: commonAssumptions,
 		Technique:   "static analysis: call-site enumeration with capacity-predicate edge cuts + specialised path evaluation (go/ssa)",
 		Run: func(c *eng.Ctx) {
@@ -135,8 +135,13 @@ func init() {
 			rulePackBeforeIndex(c)
 			ruleUploadErrorsPropagate(c)
 			ruleFlushOrder(c)
+			ruleNoOrphanPacker(c)
 		},
 		Controls: []Control{
+			{Name: "oversize-decided-on-plaintext-length", File: "internal/repository/packer_manager.go",
+				Old: "	packer, err := r.pickPacker(len(ciphertext))", New: "	packer, err := r.pickPacker(uncompressedLength)", Rule: "no-orphan-packer"},
+			{Name: "oversize-threshold-halved", File: "internal/repository/packer_manager.go",
+				Old: "	if ciphertextLen >= int(r.packSize) {", New: "	if ciphertextLen >= int(r.packSize)/2 {", Rule: "no-orphan-packer"},
 			{Name: "merge-by-size-only", File: "internal/repository/packer_manager.go",
 				Old: " && uint(p.Count()+packer.Count()) <= pack.MaxHeaderEntries {", New: " {", Rule: "header-capacity"},
 			{Name: "keep-packer-with-full-header", File: "internal/repository/packer_manager.go",
